@@ -134,6 +134,7 @@ cc = make(payload)
 cc.pdC = payload.get('pdC', False); cc.pdT = payload.get('pdT', False)
 cc.Fc = None
 cc.T = payload.get('T', 0.); cc.P = payload.get('P', 0.)
+cc.uTM = payload.get('uTM', 0.); cc.thetaTdeg = payload.get('thetaTdeg', 0.)
 cc._rebuild()
 if payload.get('Nxxtop') is not None:
     cc.Nxxtop = np.array(payload['Nxxtop'], dtype=float)
